@@ -24,7 +24,7 @@ class GQ:
         for i, (a, b, ev) in enumerate(self.E):
             if ev is None or ev['k'] != 'ext':
                 continue
-            c = prims.classify(ev['path'])[0]
+            c = prims.classify_event(ev)[0]
             if c in cls and (pred is None or pred(ev)):
                 out.append(i)
         return out
